@@ -181,6 +181,9 @@ func classify(prop string, o *outcome) (nontrivial bool, feature uint64, classes
 	add(has("apply-definite-failure"), "apply-definite-failure")
 	add(anyPrefix(f, "apply-ambiguous"), "apply-ambiguous")
 	add(o.leftover != "", "leftover-goroutines")
+	add(r.P.LatencyMs > 0, "link-latency")
+	add(has("acked-entry-applied-in-one-batch-behind-an-inherited-command"), "acked-entry-batched-behind-inherited-command")
+	add(has("apply-ok"), "apply-ok")
 	switch prop {
 	case "C01":
 		nontrivial = st["leader"] >= 2 && fault
